@@ -19,7 +19,7 @@ META = dict(
     decides='field order/type/tag agreement of every record and primitive codec; exact item count for maps; the Time lossiness',
     undecided='value-level equality for all inputs of the URI/Bytes/Hash codecs (byte-copy codecs, trusted)',
     trusted_base=['rustc MIR construction + callee resolution'],
-    rules=['K7 record sequences', 'K7 primitive endianness pairs', 'K7 map item count', 'lossiness of Time'],
+    rules=['K7 record sequences', 'K7 field order of equally typed components', 'K7 Option sentinels', 'K7 primitive endianness pairs', 'K7 map item count', 'lossiness of Time'],
 )
 
 RECORDS = [
@@ -127,6 +127,102 @@ def rule_records(ctx):
     ctx.check(bool(wt) and wt == rt, 'K7', 'UpdateStatus:tags', 'tags agree: %s' % wt, 'UpdateStatus tags written %s vs read %s' % (wt, rt))
 
 
+def rule_option_sentinels(ctx):
+    """Option<T> codecs: the constant written for None is the value on which the reader returns None."""
+    n = 0
+    for b in ctx.facts.all_bodies():
+        m = re.match(r'^<std::option::Option<(.*)> as utils::binio::Compose<\w+>>::compose$', b.rec['id'])
+        if not m or not b.file.endswith('utils/binio.rs'):
+            continue
+        ty = m.group(1)
+        rb = [x for x in ctx.facts.all_bodies() if re.match(r'^<std::option::Option<%s> as utils::binio::Parse<\w+>>::parse$' % re.escape(ty), x.rec['id'])]
+        if len(rb) != 1:
+            ctx.bad('K7', 'option:%s:reader' % ty, 'Parse impl for Option<%s> not found' % ty)
+            continue
+        rb = rb[0]
+        ctx.bodies.add(b.nid)
+        ctx.bodies.add(rb.nid)
+        n += 1
+        wconst = set()
+        for p in enumerate_paths(b, ctx.facts):
+            if p.cond_map().get('self') == {'None'}:
+                for sx in p.events:
+                    if callee_name(sx.term).endswith('Compose::compose') or 'Compose>::compose' in callee_name(sx.term):
+                        a = p.event_args.get(sx.bb) or []
+                        mm = re.match(r'^const\((-?\d+)\)$', a[0]) if a else None
+                        if mm:
+                            wconst.add(mm.group(1))
+        rconst = set()
+        for p in enumerate_paths(rb, ctx.facts):
+            if (p.outcome or '') != 'Result::Ok(Option::None())':
+                continue
+            for v, labs in p.cond_map().items():
+                mm = re.match(r'^cmp\(call:Parse>::parse\(source\)@Continue\.0,const\((-?\d+)\)\)$', v)
+                if mm and labs == {'Equal'}:
+                    rconst.add(mm.group(1))
+                elif v == 'call:Parse>::parse(source)@Continue.0' and len(labs) == 1 and re.match(r'^-?\d+$', str(list(labs)[0])):
+                    rconst.add(str(list(labs)[0]))
+        ctx.check(bool(wconst) and wconst == rconst, 'K7', 'option-sentinel:%s' % ty,
+                  'Option<%s>: None is written as %s and read back as None for exactly that value' % (ty, sorted(wconst)),
+                  'Option<%s>: None is written as %s but the reader returns None for %s: a stored None comes back as Some(..) or a '
+                  'parse error, a stored value equal to the reader sentinel comes back as None' % (ty, sorted(wconst), sorted(rconst)),
+                  loc='%s:%d' % (rb.file, rb.line))
+    ctx.floor('K7', 'Option<T> codecs', n, 4)
+
+
+def rule_field_order(ctx):
+    """Same-typed neighbours: the n-th component written is the field the n-th component read is stored into."""
+    for w, r in RECORDS:
+        wb, rb = ctx.facts.find(w), ctx.facts.find(r)
+        if len(wb) != 1 or len(rb) != 1:
+            continue
+        wb, rb = wb[0], rb[0]
+        name = w.split('::')[-2]
+        # writer: fields of self in the order they are composed on the success path
+        worder = []
+        for p in enumerate_paths(wb, ctx.facts, max_visits=2):
+            if p.kind != 'return' or not (p.outcome or '').startswith('Result::Ok'):
+                continue
+            seq = []
+            for sx in p.events:
+                if token(sx) is None:
+                    continue
+                a = p.event_args.get(sx.bb) or []
+                mm = re.match(r'^self\.(\w+)', a[0]) if a else None
+                if mm:
+                    seq.append(mm.group(1))
+            if len(seq) > len(worder):
+                worder = seq
+        # reader: the record literal; each named field is fed by one parse call site; order = order of those sites on the path
+        lits = agg_sites(rb, rb.nid.rsplit('::', 1)[0]) if True else []
+        lits = [l for l in lits if l.stmt['rv'].get('names')]
+        if not lits or not worder:
+            continue
+        rv = lits[0].stmt['rv']
+        site_of = {}
+        for fn, op in zip(rv['names'], rv['ops']):
+            o = rb.origin_of_operand(op)
+            cs = [c for c in o.calls() if token(type('S', (), {'term': c.term})()) is not None]
+            if cs:
+                site_of[fn] = cs[0].site.bb
+        rorder = []
+        for p in enumerate_paths(rb, ctx.facts, max_visits=2):
+            if p.kind != 'return' or not (p.outcome or '').startswith('Result::Ok(') or 'None' in (p.outcome or '')[:24]:
+                continue
+            pos = {sx.bb: i for i, sx in enumerate(p.events)}
+            seq = sorted((pos[bbx], fn) for fn, bbx in site_of.items() if bbx in pos)
+            if len(seq) > len(rorder):
+                rorder = [fn for _i, fn in seq]
+        common_w = [f for f in worder if f in rorder]
+        common_r = [f for f in rorder if f in worder]
+        if len(common_w) < 2:
+            continue
+        ctx.check(common_w == common_r, 'K7', 'record:%s:field-order' % name,
+                  '%s: fields are read in the order they are written (%s)' % (name, ', '.join(common_w)),
+                  '%s: fields are written in the order %s but read in the order %s: values of equally typed neighbours come back '
+                  'swapped' % (name, common_w, common_r), loc='%s:%d' % (rb.file, rb.line))
+
+
 def rule_primitives(ctx):
     n = 0
     for ty in ('u32', 'u64', 'i64'):
@@ -190,4 +286,4 @@ def rule_lossy(ctx):
         ctx.ok('K7', 'lossy:Time:subsecond-dropped', 'Time codec keeps what it writes')
 
 
-RULES = [rule_records, rule_primitives, rule_lossy]
+RULES = [rule_option_sentinels, rule_field_order, rule_records, rule_primitives, rule_lossy]
